@@ -29,6 +29,51 @@ func vresEqual(a, b Results) bool { return vshowResults(a) == vshowResults(b) }
 // ---------------------------------------------------------------------------
 // C01
 
+// vplantInputTight: the copies follow each other on the SAME line, separated by a few unrelated
+// words only (the next copy begins on the line on which the previous one ends). Only documents of
+// two or more word-bearing lines are planted this way: a one-line document sharing its line with a
+// longer neighbour has no line of its own, which is outside C01's reading (DESIGN §6 C01).
+func vplantInputTight(r *vrand, id string, docs []vdoc) vinput {
+	var sb bytes.Buffer
+	var pl []vplant
+	sb.WriteString(voovBlock(r, 1+r.intn(3)))
+	for _, d := range docs {
+		body := bytes.TrimSpace(d.data)
+		if bytes.Count(body, []byte("\n")) < 2 || !vsameWordsMidLine(body) {
+			continue
+		}
+		s := sb.Len()
+		sb.Write(body)
+		pl = append(pl, vplant{d, s, sb.Len()})
+		sb.WriteString(" " + voovLine(r, 2+r.intn(4)) + " ")
+	}
+	sb.WriteString("\n" + voovBlock(r, 1+r.intn(3)))
+	return vinput{id: id, data: sb.Bytes(), plants: pl}
+}
+
+// vsameWordsMidLine: the text yields the same words when it does not start at the beginning of a line
+// and when words follow on its last line (its first line is not a notice or a list marker for the
+// tokenizer, which are recognised at line starts only; its last line is not a notice, which would
+// swallow what follows) — otherwise a copy placed mid-line is not a verbatim copy at the word level.
+func vsameWordsMidLine(body []byte) bool {
+	words := func(b []byte) []string {
+		d, err := tokenizeStream(bytes.NewReader(b), true, newDictionary(), true)
+		if err != nil {
+			return nil
+		}
+		var ws []string
+		for _, t := range d.Tokens {
+			ws = append(ws, d.dict.getWord(t.ID))
+		}
+		return ws
+	}
+	a, b := words(body), words(append([]byte("zyxqv "), body...))
+	// … nor when something follows on its last line (a closing notice line would swallow it)
+	e := words(append(append([]byte(nil), body...), []byte(" zyxqv")...))
+	return len(b) == len(a)+1 && strings.Join(b[1:], " ") == strings.Join(a, " ") &&
+		len(e) == len(a)+1 && strings.Join(e[:len(a)], " ") == strings.Join(a, " ")
+}
+
 func vexpectPlant(c *Classifier, in vinput, p vplant) (st, et, sl, el int, ok bool) {
 	pre := c.createTargetIndexedDocument(in.data[:p.start])
 	upto := c.createTargetIndexedDocument(in.data[:p.end])
@@ -132,6 +177,9 @@ func TestVerifC01(t *testing.T) {
 			rr := r.fork(uint64(5000*ti + i))
 			ds := vpick(rr, 2+rr.intn(3))
 			in := vplantInput(rr, fmt.Sprintf("t%d_m%d", ti, i), ds)
+			if i%2 == 1 {
+				in = vplantInputTight(rr, fmt.Sprintf("t%d_m%d", ti, i), ds)
+			}
 			var res Results
 			pan, msg := catch(func() { res = c.Match(in.data) })
 			if pan {
@@ -206,6 +254,14 @@ func TestVerifC04(t *testing.T) {
 		}
 		seen[k] = d
 	}
+	// inputs that END inside a multi-byte UTF-8 sequence (a file read up to a byte limit), with the
+	// complete text as twin: whatever an earlier call left in a read buffer must not complete the
+	// truncated character of a later one
+	for i, d := range vnamed("License/MIT/a.txt", "License/ISC/license.txt") {
+		full := append(append([]byte(nil), bytes.TrimSpace(d.data)...), []byte(" caf\u00e9")...)
+		inputs = append(inputs, vinput{id: fmt.Sprintf("cut%d", i), data: full[:len(full)-1], twin: full},
+			vinput{id: fmt.Sprintf("cutb%d", i), data: append(append([]byte(nil), full[:len(full)-2]...), 0xe2, 0x80), twin: append(append([]byte(nil), full[:len(full)-2]...), []byte("\u201d")...)})
+	}
 	// a second, separately built instance with reversed insertion order, and a superset instance
 	c2 := NewClassifier(0.8)
 	for i := len(vcorpus) - 1; i >= 0; i-- {
@@ -224,6 +280,9 @@ func TestVerifC04(t *testing.T) {
 		for k := 0; k < reps && what == ""; k++ {
 			// interleave other calls
 			other := inputs[r.intn(len(inputs))].data
+			if in.twin != nil {
+				other = in.twin
+			}
 			switch k % 4 {
 			case 0:
 				c.Match(other)
@@ -264,6 +323,38 @@ func TestVerifC04(t *testing.T) {
 		o.corr("xproc:match", in.id, []string{vhash(in.data)}, vshowResults(base))
 		o.verdict("C04", in.id, what == "", len(base.Matches) > 0, "det:"+vhash(in.data), map[string]interface{}{"what": vclip(what), "input_hex": vclip(hx(in.data))})
 		n++
+	}
+	// a short input (one read chunk) that ENDS inside a multi-byte character, matched after calls that
+	// left other bytes behind: the decoder looks past the end of the data, and what it finds there
+	// must not depend on earlier calls (of this or any other classifier in the process)
+	{
+		lic := "Permission is hereby granted to any person obtaining a copy of this\nsoftware to use copy modify merge publish and distribute it without\nrestriction provided that this notice is kept in all copies and that\nthe software is provided as is without any warranty of any kind and\nunder the conditions named responsabilit\u00e9 limit\u00e9e garantie limit\u00e9"
+		cs := NewClassifier(0.8)
+		cs.AddContent("License", "Short-Accent", "license.txt", []byte(lic))
+		full := []byte(lic)
+		for _, cutLen := range []int{1} {
+			cut := append([]byte(nil), full[:len(full)-cutLen]...)
+			ascii := []byte(strings.Repeat("lorem ipsum dolor sit amet consectetur adipiscing elit ", 12))
+			what := ""
+			for round := 0; round < 6 && what == ""; round++ {
+				cs.Match(ascii)
+				a := cs.Match(cut)
+				switch round % 3 {
+				case 0:
+					cs.Match(full)
+				case 1:
+					cs.Normalize(full)
+				default:
+					c.Match(full) // another classifier
+				}
+				b := cs.Match(cut)
+				if !vresEqual(a, b) {
+					what = fmt.Sprintf("Match of an input ending inside a multi-byte character depends on the preceding call: %s after ASCII text, %s after the complete text", vshowResults(a), vshowResults(b))
+				}
+			}
+			o.verdict("C04", "hist_cut", what == "", true, "hist_cut", map[string]interface{}{"what": vclip(what), "input_hex": vclip(hx(cut))})
+			n++
+		}
 	}
 	// AddContent must not modify its argument
 	b := []byte("Some License text HERE\nwith — dashes and &amp; entities\n")
@@ -1000,13 +1091,24 @@ func TestVerifC08(t *testing.T) {
 	for _, d := range vnamed("License/Apache-2.0/a.txt", "License/MIT/a.txt") {
 		inputs = append(inputs, vinput{id: "mbhy_" + d.name, data: vdenseHyphen(d.data, 3, "")})
 	}
+	// total lengths that fill the read buffer exactly on the last read (1024 + k*1020 bytes), the text
+	// ending in a word: a reader that hands over its last bytes together with io.EOF then makes
+	// io.ReadFull return a full buffer and a nil error while the stream is already at its end
+	for _, d := range vnamed("License/ISC/license.txt", "License/MIT/a.txt") {
+		body := bytes.TrimSpace(d.data)
+		for k := 0; k < 3; k++ {
+			if want := 1024 + k*1020; want >= len(body) {
+				inputs = append(inputs, vinput{id: fmt.Sprintf("len%d_%s", want, d.name), data: append(bytes.Repeat([]byte(" "), want-len(body)), body...)})
+			}
+		}
+	}
 	nfrag, npad, nfail := 0, 0, 0
 	for ii, in := range inputs {
 		want := c.Match(in.data)
 		// fragmentation
 		for fi, sizes := range [][]int{{1}, {2, 3}, {7, 1, 1024}, {1019, 5}, {1024}, {4096}, {1 + r.intn(50), 1 + r.intn(2000)}} {
 			for _, eofWith := range []bool{false, true} {
-				if !vthorough() && fi > 1 && ii%3 != fi%3 {
+				if !vthorough() && fi > 1 && ii%3 != fi%3 && !strings.HasPrefix(in.id, "len") {
 					continue
 				}
 				got, err := c.MatchFrom(&vchunkReader{data: in.data, sizes: sizes, eofWith: eofWith, failAt: -1})
@@ -1201,12 +1303,20 @@ func TestVerifC10(t *testing.T) {
 	for i, s := range []string{"Copyright (c) 2020 Foo\n", "// Copyright 2019 Foo Inc.", "2020-01-31\n", "Copyright 2001 a\n\n2020-01-31\n---\n"} {
 		inputs = append(inputs, vinput{id: fmt.Sprintf("notice%d", i), data: []byte(s)})
 	}
+	// directed: out-of-vocabulary words only (every id 0), alone and after a notice line
+	for i, s := range []string{"foo bar baz", "zzz", "some words\nnobody has ever put\ninto the dictionary", "Copyright 2020 somebody\nqqq www eee rrr", "qq ww ee rr tt yy uu ii oo pp aa ss dd ff gg hh jj kk ll"} {
+		inputs = append(inputs, vinput{id: fmt.Sprintf("noticeoov%d", i), data: []byte(s)})
+	}
 	small := func(th float64) *Classifier {
 		c := NewClassifier(th)
 		c.AddContent("License", "Tiny", "a.txt", []byte("one two three"))
 		c.AddContent("License", "Empty", "a.txt", nil)
 		c.AddContent("License", "NoWords", "a.txt", []byte("--- *** ...\n\n"))
 		c.AddContent("License", "MIT", "a.txt", vcorpus[0].data)
+		// a document whose words are, after entity decoding, the placeholder the dictionary returns for
+		// unknown ids ("UNKNOWN", upper case: entities are decoded after lower-casing): q-grams of
+		// out-of-vocabulary input words then hash like this document's although no id agrees
+		c.AddContent("License", "Unk", "a.txt", []byte(strings.Repeat("&#85;&#78;&#75;&#78;&#79;&#87;&#78; ", 12)))
 		return c
 	}
 	n := 0
@@ -1303,6 +1413,15 @@ func TestVerifC11(t *testing.T) {
 		inputs = append(inputs, vinput{id: fmt.Sprintf("hy%d", i), data: d.data},
 			vinput{id: fmt.Sprintf("hyd%d", i), data: vdenseHyphen(d.data, 3, "")},
 			vinput{id: fmt.Sprintf("hyi%d", i), data: vdenseHyphen(vdenseHyphen(d.data, 3, "   "), 2, "")})
+	}
+	// listed spelling variants next to punctuation ("licence,", "organisation." …): corpus texts that
+	// have them, and texts respelled by the C06 spelling transform
+	for i, d := range vnamed("License/EUPL-1.1/license.txt", "License/wxWindows-3.1/license.txt", "License/Apache-2.0/pristine.txt", "License/MIT/a.txt") {
+		t := d.data
+		if i >= 2 {
+			t = []byte(vreplaceWord(vreplaceWord(string(t), "license", "licence"), "License", "Licence"))
+		}
+		inputs = append(inputs, vinput{id: fmt.Sprintf("ukspell%d", i), data: t})
 	}
 	// a URL scheme that starts a word capitalised (Normalize keeps the case of a word's first rune)
 	for i, d := range vnamed("Header/Apache-2.0/header.txt", "License/Apache-2.0/pristine.txt") {
